@@ -27,7 +27,8 @@ RULE = ("simulated style-based elections (all / disjoint / nested / random style
 REQUIRED = ["contract:CVR.consistent_sampling", "draws_checked", "thresholds_checked", "data_prefix_checked",
             "determinism_checked", "vote_independence_checked", "draws_with_skipped_cards", "sizes:ones", "sizes:all",
             "sizes:one_exhausted", "sizes:random", "sizes:some_zero", "draws_with_a_zero_size_contest_among_positive_ones", "continued_draws_checked",
-            "continued_draw_with_some_sizes_lowered_and_some_raised", "draws_with_phantoms_selected", "cards_listing_no_contest_present", "polling_order_checked", "mismatched_sample_refused", "second_draw_same_contest_objects", "draw_after_sample_numbers_reassigned"]
+            "continued_draw_with_some_sizes_lowered_and_some_raised", "data_prefix_checked_with_cvrs_as_mvrs:ONEAUDIT",
+            "data_prefix_checked_with_cvrs_as_mvrs:CARD_COMPARISON", "draws_with_phantoms_selected", "cards_listing_no_contest_present", "polling_order_checked", "mismatched_sample_refused", "second_draw_same_contest_objects", "draw_after_sample_numbers_reassigned"]
 ASSUMPTIONS = ["distinct sample numbers; n_c <= number of cards listing c; dict keys equal contest ids; thresholds for "
                "n_c = 0 are unconstrained"]
 N_CASES = {"quick": 19200, "thorough": 200000}
@@ -192,6 +193,17 @@ def run_case(es, rec):
                     rec.violation("c07.data", "assertion_data_are_not_the_contests_first_n_cards_in_order",
                                   {"contest": cid, "assertion": name, "n_c": sizes[cid], "len_data": int(len(d)),
                                    "data": d, "expected": exp, "threshold": con.sample_threshold})
+                    return
+                # the same question asked the way the sample-size code asks it: the CVR sample standing in for the manual
+                # records too (one list object for both) - still exactly the contest's first n_c cards, error-free values
+                ok, du2 = rec.guard("c07.call:mvrs_to_data:cvrs_as_mvrs", asn.mvrs_to_data, c, c)
+                if not ok:
+                    return
+                rec.count(f"data_prefix_checked_with_cvrs_as_mvrs:{es['contests'][cid]['audit_type']}")
+                if len(du2[0]) != len(ref_cards):
+                    rec.violation("c07.data", "assertion_data_are_not_the_contests_first_n_cards_in_order",
+                                  {"contest": cid, "assertion": name, "n_c": sizes[cid], "len_data": int(len(du2[0])),
+                                   "manual_records": "the CVR sample itself", "threshold": con.sample_threshold})
                     return
                 break  # one assertion per contest suffices for the order check
 
